@@ -8,7 +8,9 @@ META = {
     "engine": "E1+E2+E3+E4",
     "text": "Coq theorems over an interleaving model of ConcurrentVector + RetireList at atomic-operation granularity "
             "(load/CAS of _block_table, load/CAS of the tagged retire head, clock reads), for every client program of "
-            "ensure/reserve/operator[]/size/snapshot/snapshot[]/for_each(fill_n,copy_n)/gc/time-passes, every number of "
+            "ensure/reserve/operator[]/size/snapshot/snapshot[]/for_each(fill_n,copy_n)/gc/time-passes/calendar-clock-is-"
+            "stepped (two clocks: elapsed and calendar = elapsed + adversary offset; the stamp reads the one named by the "
+            "regenerated clock id of get_current_timestamp, proved monotonic), every number of "
             "threads, every block size 2^k and every schedule: every published table extends the previous one (an index "
             "never changes its (block, offset)); all askers of an index get the same element, now or later, through the "
             "vector or any snapshot; every block is constructed exactly once; while the vector is alive no block is "
